@@ -158,8 +158,15 @@ def _h(v):
         return hash(frozenset((k if isinstance(k, (int, str, bytes)) else repr(k), _h(x)) for k, x in v.items()))
     if isinstance(v, (list, tuple)):
         return hash(tuple(_h(x) for x in v))
+    if isinstance(v, (set, frozenset)):
+        return hash(frozenset(_h(x) for x in v))
     if isinstance(v, (int, str, bytes, float, bool)) or v is None:
         return hash((type(v).__name__, v))
+    inner = getattr(v, "__dict__", None)
+    if isinstance(inner, dict) and inner:
+        # an object held in a process-wide container: identity and content of its attributes (one level of objects)
+        return hash((id(v), frozenset((k, _h(x) if isinstance(x, (dict, list, tuple, set, int, str, bytes, float, bool)) or x is None
+                                       else id(x)) for k, x in inner.items())))
     return hash(repr(v))
 
 
@@ -195,6 +202,57 @@ def interned_constants():
             if isinstance(v, type) and getattr(v, "__module__", None) == mname:
                 for cattr, cv in list(vars(v).items()):
                     look("%s.%s.%s" % (mname, attr, cattr), cv)
+    return out
+
+
+# process-wide containers that have their own table with their own rule (append-only caches)
+WATCHED_ELSEWHERE = {("pdfminer.cmapdb", "CMapDB", "_cmap_cache"), ("pdfminer.cmapdb", "CMapDB", "_umap_cache"),
+                     ("pdfminer.encodingdb", "EncodingDB", "std2unicode"), ("pdfminer.encodingdb", "EncodingDB", "mac2unicode"),
+                     ("pdfminer.encodingdb", "EncodingDB", "win2unicode"), ("pdfminer.encodingdb", "EncodingDB", "pdf2unicode"),
+                     ("pdfminer.encodingdb", "EncodingDB", "encodings")}
+
+
+def _pdfminer_modules():
+    import sys
+    return [(n, m) for n, m in list(sys.modules.items()) if m is not None and (n == "pdfminer" or n.startswith("pdfminer."))]
+
+
+def class_attributes():
+    """GENERIC watch: every mutable class attribute (dict / list / set) of every class defined in a pdfminer module - a
+    class-level container is process-wide state; one that changes during an extraction call is a memo / cache / registry
+    that outlives the call"""
+    out = {}
+    for mname, mod in _pdfminer_modules():
+        for cname, cls in list(vars(mod).items()):
+            if not (isinstance(cls, type) and getattr(cls, "__module__", None) == mname):
+                continue
+            for attr, v in list(vars(cls).items()):
+                if isinstance(v, (dict, list, set)) and not attr.startswith("__") and (mname, cname, attr) not in WATCHED_ELSEWHERE:
+                    out["%s.%s.%s" % (mname, cname, attr)] = _h(v)
+    return out
+
+
+def function_defaults():
+    """GENERIC watch: every mutable default argument (dict / list / set in __defaults__ / __kwdefaults__) of every function and
+    method defined in a pdfminer module - a mutable default is one object for the whole process"""
+    import types
+    out = {}
+
+    def look(where, f):
+        f = getattr(f, "__func__", f)
+        if not isinstance(f, types.FunctionType):
+            return
+        ds = list(f.__defaults__ or ()) + list((f.__kwdefaults__ or {}).values())
+        for i, d in enumerate(ds):
+            if isinstance(d, (dict, list, set)):
+                out["%s#%d" % (where, i)] = _h(d)
+    for mname, mod in _pdfminer_modules():
+        for name, v in list(vars(mod).items()):
+            if isinstance(v, type) and getattr(v, "__module__", None) == mname:
+                for attr, f in list(vars(v).items()):
+                    look("%s.%s.%s" % (mname, name, attr), f)
+            elif getattr(v, "__module__", None) == mname:
+                look("%s.%s" % (mname, name), v)
     return out
 
 
@@ -244,6 +302,8 @@ def shared_tables():
                                           for k, v in CMapDB._umap_cache.items()})
     t.put("PSLiteralTable", "append", lambda: {k: hash((id(v), v.name)) for k, v in PSLiteralTable.dict.items()})
     t.put("PSKeywordTable", "append", lambda: {k: hash((id(v), v.name)) for k, v in PSKeywordTable.dict.items()})
+    t.put("class attributes (generic)", "append", class_attributes)
+    t.put("function default arguments (generic)", "append", function_defaults)
     t.put("interned constants", "append", interned_constants)     # (modules imported later add constants)
     t.put("module scalars", "immutable", lambda: {"settings.STRICT": hash(settings.STRICT), "PSBaseParser.BUFSIZ": hash(PSBaseParser.BUFSIZ),
                                                   "PDFPage.INHERITABLE_ATTRS": hash(frozenset(PDFPage.INHERITABLE_ATTRS)),
